@@ -154,3 +154,63 @@ Proof.
   exists new. split; [exact Hn|]. rewrite <- Hn. split; [exact Hm|]. exists rest.
   rewrite Hn in Hr. rewrite <- app_assoc in Hr. exact Hr.
 Qed.
+
+(* ------------------------------------------------------------------ EVENT records with payload (record_event) *)
+(* A read trigger (-T f@read=proc/statm, ...) makes record_ret_stack call record_event: an EVENT record (a header with
+   the `more` bit and a payload: u16 size ++ data) right after f's ENTRY record and right before its EXIT record.
+   For the store-level LTS such a record is a record with payload like any other (`rec` is arbitrary in every
+   theorem above: header stores, payload copy, ONE size update).  So the trace with its events is still a prefix of
+   what the thread executed, and complete after the crash handler. *)
+Lemma add_events_app evs a b : add_events evs (a ++ b) = add_events evs a ++ add_events evs b.
+Proof. unfold add_events. apply flat_map_app. Qed.
+
+Theorem killed_trace_with_events_is_prefix setup cap ops evs sched :
+  wf_ops [] ops = true ->
+  let recs := add_events evs (concat (snd (ops_run [] ops))) in
+  let s := run true cap sched (start setup recs) in
+  exists k, match_recs (firstn k (add_events evs (eager [] ops))) (file (finish s)) = true.
+Proof.
+  intros Hwf recs s.
+  assert (Hw : in_window true s = false) by reflexivity.
+  destruct (prefix_outside_window setup true cap recs sched Hw) as [Hm [[rest Hr] _]]. fold s in Hm, Hr.
+  destruct (lazy_is_prefix_of_eager ops Hwf) as [rest' He].
+  exists (length (done s)).
+  assert (Hfn : firstn (length (done s)) (add_events evs (eager [] ops)) = done s).
+  { rewrite He, add_events_app. fold recs. rewrite Hr, <- app_assoc. apply firstn_exact. }
+  rewrite Hfn. exact Hm.
+Qed.
+
+Theorem crashed_trace_with_events_is_complete setup cap ops evs sched :
+  wf_ops [] ops = true ->
+  let recs := add_events evs (concat (snd (ops_run [] ops)) ++ segv_flush (fst (ops_run [] ops))) in
+  let s := run true cap sched (start setup recs) in
+  pc s = PIdle -> todo s = [] ->
+  match_recs (add_events evs (eager [] ops)) (file (finish s)) = true.
+Proof.
+  intros Hwf recs s Hpc Ht.
+  pose proof (complete_run setup true cap recs sched Hpc Ht) as H. fold s in H.
+  unfold recs in H at 1. rewrite (lazy_plus_flush_is_eager ops Hwf) in H. exact H.
+Qed.
+
+(* non-vacuity: f0 calls f15 (read trigger): ENTRY f0, ENTRY f15, "read" event, "diff" event, EXIT f15, EXIT f0.
+   (1) killed while the payload of the "read" event is being copied: the file holds the two ENTRY records only;
+   (2) the same instant under the discipline "count the header, copy the payload, count the payload" (what
+       record_ret_stack did before fix 4751e05, `single = false`): the file ends with an EVENT header whose payload is
+       not there - not whole records;  (3) the complete run. *)
+Definition ev_read : rec := {| r_time := 1020; r_type := UFTRACE_EVENT; r_depth := 0; r_addr := 100001;
+  r_pl := [24; 0; 144; 1; 0; 0; 0; 0; 0; 0; 200; 0; 0; 0; 0; 0; 0; 0; 80; 0; 0; 0; 0; 0; 0; 0]%N |}.
+Definition ev_diff : rec := {| r_time := 1050; r_type := UFTRACE_EVENT; r_depth := 0; r_addr := 100003;
+  r_pl := [24; 0; 28; 0; 0; 0; 0; 0; 0; 0; 12; 0; 0; 0; 0; 0; 0; 0; 4; 0; 0; 0; 0; 0; 0; 0]%N |}.
+Definition nv_ev_ops : list op := [OEnter 4096 1000 [] false; OEnter 7940 1020 [] false; OExit 1050 []; OExit 1060 []].
+Definition nv_evs : ev_tab := [(1020%N, false, ev_read); (1050%N, true, ev_diff)].
+Definition nv_ev_recs := add_events nv_evs (concat (snd (ops_run [] nv_ev_ops))).
+Example nv_event_with_payload :
+  map r_type nv_ev_recs = [0; 0; 3; 3; 1; 1]%N
+  /\ (let s := run true 4080 (repeat LP 15) (init nv_ev_recs) in
+      pc s = PCopy ev_read /\ length (file (finish s)) = 32 /\ ok_prefix nv_ev_recs (file (finish s)) = true)
+  /\ (let s := run false 4080 (repeat LP 15) (init nv_ev_recs) in
+      in_window false s = true /\ length (file (finish s)) = 48 /\ ok_prefix nv_ev_recs (file (finish s)) = false)
+  /\ (let s := run true 4080 (repeat LP 40) (init nv_ev_recs) in
+      pc s = PIdle /\ todo s = [] /\ length (file (finish s)) = 160
+      /\ match_recs (add_events nv_evs (eager [] nv_ev_ops)) (file (finish s)) = true).
+Proof. vm_compute. repeat split; reflexivity. Qed.
